@@ -189,6 +189,33 @@ func extractPropNames() (string, error) {
 	if valTest == nil || valNeeds == nil || apiThrow == nil {
 		return "", fmt.Errorf("ts-client: handleError has an unexpected shape")
 	}
+	// ---- ts-server: in which order a route's catch block tries its answers
+	cb := regexp.MustCompile(`(?s)\} catch \(err: unknown\) \{\n(.*?)\n        \}\n      \},`).FindStringSubmatch(tsv)
+	if cb == nil {
+		return "", fmt.Errorf("ts-server: the catch block of a route was not found")
+	}
+	type branch struct {
+		name string
+		at   int
+	}
+	brs := []branch{{"validation", strings.Index(cb[1], "if (err instanceof ValidationError) {")}, {"hook", strings.Index(cb[1], "if (options?.onError) {")},
+		{"default", strings.Index(cb[1], "const message = err instanceof Error ? err.message : String(err);")}}
+	for _, b := range brs {
+		if b.at < 0 {
+			return "", fmt.Errorf("ts-server: the catch block has no %s branch", b.name)
+		}
+	}
+	sort.Slice(brs, func(i, j int) bool { return brs[i].at < brs[j].at })
+	var catchOrder []string
+	for _, b := range brs {
+		catchOrder = append(catchOrder, strconv.Quote(b.name))
+	}
+	hookBranch := regexp.MustCompile(`(?s)if \(options\?\.onError\) \{\n(.*?)\n          \}\n`).FindStringSubmatch(cb[1])
+	valBranch := regexp.MustCompile(`(?s)if \(err instanceof ValidationError\) \{\n(.*?)\n          \}\n`).FindStringSubmatch(cb[1])
+	if hookBranch == nil || valBranch == nil {
+		return "", fmt.Errorf("ts-server: the catch block's branches have an unexpected shape")
+	}
+	squash := func(t string) string { return strings.Join(strings.Fields(t), " ") }
 	sort.SliceStable(uses, func(i, j int) bool { return uses[i].art < uses[j].art })
 	var b strings.Builder
 	b.WriteString("-- REGENERATED by /verif/harness/cmd/extract on every run: the real ts-client, ts-server and openapiv3 plugins are run on a probe schema and the property names are read back from the emitted text. Do not edit.\n")
@@ -208,6 +235,9 @@ func extractPropNames() (string, error) {
 	b.WriteString("/-- the emitted TS client's error mapping: when a response is an error, when it is a ValidationError (status test, body test, what it carries), what the ApiError carries otherwise. -/\n")
 	fmt.Fprintf(&b, "def tsClientErrorTest : String := %s\ndef tsClientValidationStatusTest : String := %s\ndef tsClientValidationBodyTest : String := %s\ndef tsClientValidationCarries : String := %s\ndef tsClientApiErrorArgs : String := %s\n",
 		strconv.Quote(errTest[1]), strconv.Quote(valTest[1]), strconv.Quote(valNeeds[1]), strconv.Quote(valNeeds[2]), strconv.Quote(apiThrow[1]))
+	b.WriteString("/-- the emitted TS server's catch block: the order in which its branches are tried, and what the validation and the hook branch do. -/\n")
+	fmt.Fprintf(&b, "def tsServerCatchOrder : List String := [%s]\ndef tsServerValidationBranch : String := %s\ndef tsServerHookBranch : String := %s\n",
+		strings.Join(catchOrder, ", "), strconv.Quote(squash(valBranch[1])), strconv.Quote(squash(hookBranch[1])))
 	b.WriteString("end Sebuf.Gen.PropNames\n")
 	return b.String(), nil
 }
